@@ -55,6 +55,9 @@ pub use error::{ProofError, ProofErrorKind};
 mod nsec3;
 use nsec3::verify_nsec3;
 
+#[cfg(feature = "verif-hooks")]
+pub mod verif_hooks;
+
 /// Performs DNSSEC validation of all DNS responses from the wrapped DnsHandle
 ///
 /// This wraps a DnsHandle, changing the implementation `send()` to validate all
